@@ -292,7 +292,7 @@ class History:
             # is not a valid update; anything else on a well-formed update is judged
             shape_change_in_place = (
                 isinstance(e, RuntimeError)
-                and any(m in str(e) for m in ("shape mismatch", "cannot be broadcast", "must match the size", "expanded size"))
+                and any(m in str(e) for m in ("shape mismatch", "cannot be broadcast", "must match the size", "expanded size", "number of sizes provided"))
                 and kind in ("draw", "assign_view", "assign_cat", "assign_transformed")
                 and writes_in_place(target.x if kind == "draw" else target)
             )
@@ -613,7 +613,7 @@ def generate(seed, index, tier):
             xo = hist.dic[did].x
             if writes_in_place(xo) and any(hist.dic[p].tensor.requires_grad for p in base_ids_of(xo) if p in hist.dic):
                 continue
-            op = {"op": "draw", "id": did, "rsample": w.bernoulli(0.5), "shape": [], "seed": w.next64() & 0x7FFFFFFF}
+            op = {"op": "draw", "id": did, "rsample": w.bernoulli(0.5), "shape": [] if w.bernoulli(0.75) else [w.randint(1, 3)], "seed": w.next64() & 0x7FFFFFFF}
         elif u < 0.92:
             cands = [p for p in upd if current(p).dim() == 1 and domains[p] in ("real", "positive", "simplex") and not current(p).requires_grad]
             if not cands:
@@ -627,7 +627,9 @@ def generate(seed, index, tier):
             batched_now = any(current(p).dim() > len(base_shapes[p]) for p in upd)
             S = 0 if batched_now and w.bernoulli(0.6) else w.randint(1, 3)
             okshape = True
-            for p in upd:
+            # all of them at once, or only some (e.g. population sizes batched against one tree)
+            some = list(upd) if w.bernoulli(0.55) else sorted(w.sample(list(upd), 1 if w.bernoulli(0.5) else w.randint(1, len(upd))))
+            for p in some:
                 t = current(p).detach()
                 row = t[(0,) * (t.dim() - len(base_shapes[p]))] if t.dim() > len(base_shapes[p]) else t
                 if tuple(row.shape) != base_shapes[p]:
@@ -675,6 +677,32 @@ def generate(seed, index, tier):
         if not ok:
             break
     ops.append({"op": "eval", "targets": [list(t) for t in obs]})
+    w2 = st["workload2"]
+    if recipe.get("batch", True) and len(upd) >= 2 and w2.bernoulli(0.35):
+        # one parameter at a time acquires a sample dimension, changes its size, loses it again, while
+        # every other input keeps its shape (e.g. population sizes drawn in a batch against one tree)
+        import torch as _t
+
+        for p in w2.sample(sorted(upd), min(3, len(upd))):
+            t = current(p).detach()
+            row = t[(0,) * (t.dim() - len(base_shapes[p]))] if t.dim() > len(base_shapes[p]) else t
+            if tuple(row.shape) != base_shapes[p] or t.dim() > len(base_shapes[p]):
+                continue
+            for S in (w2.randint(1, 2), 3, 0):
+                new = row if S == 0 else _t.stack([_t.tensor(perturb(w2, row, domains[p], scale), dtype=row.dtype) for _ in range(S)])
+                tail = [{"op": "assign_many", "values": {p: new.tolist()}, "dtypes": {p: str(t.dtype).split(".")[-1]}, "S": S},
+                        {"op": "eval", "targets": [list(x) for x in obs]}]
+                stop = False
+                for op in tail:
+                    ops.append(op)
+                    op2 = copy.deepcopy(op)
+                    if op2["op"] == "eval":
+                        op2["targets"] = [tuple(x) for x in op2["targets"]]
+                    if not hist.apply(op2):
+                        stop = True
+                        break
+                if stop:
+                    break
     return {"recipe": recipe, "ops": ops, "policy": policy, "seed": run_seed(seed, PROP, index)}
 
 
